@@ -26,6 +26,18 @@ CLAIMED = {
    technique="bounded exhaustive enumeration of closed UPLC terms x slippages x budgets on the real machine; oracle: accounting identity from an independent reference machine's step/builtin-call counts, threshold law, golden budgets, size-bucket relations",
    text="For every closed term up to the size bound that terminates (per the reference machine), under each semantics variant: the charged cost equals startup + sum over step kinds of count x step cost + the costs of the saturated builtin calls, with counts and call arguments taken from the independent reference machine; the cost is identical for 9 slippage values; for 7 budgets around the exact cost evaluation succeeds iff the budget covers the cost component-wise (OutOfExError otherwise, remaining budget never negative); the 655 V3 conformance budget goldens are reproduced exactly; and for every size-costed builtin, arguments of equal size measure cost the same and cost is monotone across bucket boundaries.",
    note="trusted: cek_ref's step counting; BuiltinCosts::to_ex_budget is used for the per-call term of the identity and is itself pinned by the goldens and the size-bucket relations; V2 budget goldens excluded (no in-repo cost vector reproduces them, DESIGN §4 C05)"),
+ "C06": dict(engine="h_lang", design_ref="DESIGN.md §4 C06",
+   technique="bounded exhaustive enumeration of type-checked Aiken functions x valid argument encodings on the real machine; oracle: classification of the machine's error (structural errors and panics forbidden)",
+   text="Every function body of the 14 strata (each accepted by the real type checker) is compiled and run on the full cartesian product of valid encodings of its parameter types (Data parameters: the whole Data universe); each of the ~3.9M evaluations is classified: TypeMismatch, NonFunctionalApplication, OpenTermEvaluated, MissingCaseBranch, NotAConstant, NonConstrScrutinized and the other structural machine errors, or a panic, are violations; DivideByZero, EmptyList, DeserialisationError and explicit failure are the permitted ways to stop.",
+   note="the candidate space is the typed enumerator's (C01's) rather than all untyped candidates filtered by the checker; opaque types and aiken/builtin wrappers beyond the constant-folding family are not in the fragment yet"),
+ "C14": dict(engine="h_lang", design_ref="DESIGN.md §4 C14",
+   technique="bounded exhaustive enumeration of Aiken functions, each type-checked and compiled under all 9 Tracing values and evaluated on the full argument product; oracle: the nine builds agree on failure/value",
+   text="Every function of the strata (the trace-operand stratum at its full bound; strata with trace, ?, expect, fail, todo, casts one size smaller; the rest two sizes smaller in the quick tier) is type-checked and generated under each of the 3 scopes x 3 levels of Tracing and run on every argument tuple; the verdict and result constant must equal the all-silent build's. The evidence reports how many functions compile to different code under verbose tracing (non-vacuity).",
+   note="nine builds per function make the quick tier wall-capped on a loaded machine (reported as exhaustive=false with the number of batches completed; traced strata are scheduled first); traces, size and cost are not compared"),
+ "C16": dict(engine="h_lang", design_ref="DESIGN.md §4 C16",
+   technique="explicit-state exploration of the real shrinker and cache from every start state / query history up to a bound, driven by abstract prefix-consuming fuzzers; invariants re-checked by uncached runs",
+   text="(a) From every start state - every choice sequence of length <= 6 (8 thorough) over {0,1,2,3,255} that one of 8 abstract fuzzer shapes consumes entirely and on which one of 6 properties fails - the real Counterexample::simplify is run; afterwards, with fresh uncached runs: the final choices still falsify the property, the final value is what they generate, the result is not larger than the start in shortlex order, simplifying again with a fresh cache changes nothing, and the number of runs stays under an explicit horizon (termination). (c) Every sequence of up to 3 (4) Cache::get queries over 40 keys is replayed on a real Cache and each answer compared with the uncached run.",
+   note="the real PropertyTest::run loop over compiled Aiken fuzzers (seed reproducibility, labels, OnTestFailure modes) is not built yet: only the shrinker and its cache are covered; abstract fuzzers are prefix-consuming like every fuzzer built from the PRNG primitives"),
  "C08": dict(engine="h_uplc", design_ref="DESIGN.md §4 C08",
    technique="bounded exhaustive enumeration of programs over serialisation-boundary constants through the real flat/CBOR/hex encoders and decoders; oracle: round-trip identities plus an independent flat encoder and an independent blake2b-224",
    text="Every closed program up to a size bound (all builtins and 42 serialisation-boundary constants at size<=3; a structural alphabet to size 6), in de Bruijn / named de Bruijn / named form and four version triples, is encoded by the real encoder and by an independent flat encoder (must agree bit for bit), decoded back (must be equal), re-encoded (bit-identical), passed through CBOR and hex, and its script hash for V1/V2/V3 is compared with an independent blake2b-224 of version byte || cbor; addresses must carry that hash. Non-canonical Data CBOR variants inside constants are decoded and re-encoded (bit-preservation; three known findings).",
